@@ -247,6 +247,29 @@ fn run_suite<S: ShortGroupSignatureScheme + 'static>(em: &mut Emitter, base: &mu
                 *get_mut(&mut v, &pok_path).unwrap() = json!({"a_bar": g1_hex_c(&abar), "b_bar": g1_hex_c(&bbar), "t": g1_hex_c(&t), "proof": resp.iter().map(sc_hex).collect::<Vec<_>>()});
                 attack_json(em, suite, &format!("overlong-forgery extra={}", extra), &world, &v, true);
             }
+            // simulated proof of exact length: a harvested (Ā, B̄) pair re-randomised, responses chosen at random, the
+            // challenge learned from a dry run, t solved from the verification equation — works iff the challenge does
+            // not depend on t
+            {
+                let rho = rng.scalar();
+                let (a2, b2) = (abar * rho, bbar * rho);
+                let resp: Vec<Scalar> = (0..hid.len() + 2).map(|_| rng.scalar()).collect();
+                let mut v = bv.clone();
+                *get_mut(&mut v, &pok_path).unwrap() = json!({"a_bar": g1_hex_c(&a2), "b_bar": g1_hex_c(&b2), "t": g1_hex_c(&(G1Projective::GENERATOR * rng.scalar())), "proof": resp.iter().map(sc_hex).collect::<Vec<_>>()});
+                if let Out::Ok(p0) = pres_from_value::<S>(&v) {
+                    let (_, ch, _) = verify_logged(&p0, &world.schema, &world.nonce);
+                    if let Some(c1) = ch {
+                        let mut t = G1Projective::IDENTITY;
+                        for (j, h) in hid.iter().enumerate() {
+                            t += *h * resp[j];
+                        }
+                        t += a2 * resp[hid.len()] + b2 * resp[hid.len() + 1] + lhs * (-c1);
+                        get_mut(&mut v, &pok_path).unwrap()["t"] = json!(g1_hex_c(&t));
+                        v["challenge"] = json!(sc_hex(&c1));
+                        attack_json(em, suite, "simulated-proof-for-a-learned-challenge", &world, &v, false);
+                    }
+                }
+            }
             {
                 let mut v = bv.clone();
                 for f in ["a_bar", "b_bar"] {
